@@ -62,6 +62,14 @@ Proof.
   intros start stop step Hs. split; [apply py_slice_incl; exact Hs|apply py_slice_length_le; exact Hs].
 Qed.
 
+(* Subscripts: defined exactly for -len <= key < len, yield an element of the container, and a negative
+   key counts from the end. *)
+Theorem subscript_laws : forall k items key, lenZ items <= i64_max ->
+  ((exists x, model_index k items key = Some x) <-> - lenZ items <= key < lenZ items) /\
+  (forall x, model_index k items key = Some x -> In x items) /\
+  (- lenZ items <= key < 0 -> model_index k items key = model_index k items (key + lenZ items)).
+Proof. exact model_index_laws. Qed.
+
 (* non-vacuity: a concrete non-trivial instance meets the hypotheses *)
 Example slice_python_witness :
   model_slice KSeq [0;1;2] (Some 3) (Some 0) (Some (-1)) = Ok (3, [2;1]) /\
@@ -77,3 +85,4 @@ Print Assumptions slice_full_is_identity.
 Print Assumptions slice_minus_one_reverses.
 Print Assumptions slice_selects_from_input.
 Print Assumptions py_slice_laws.
+Print Assumptions subscript_laws.
